@@ -76,12 +76,19 @@ def encode(asc, style):
             out.append('<staffDef xml:id="%s" n="%d" lines="5"%s clef.shape="%s" clef.line="%d" key.sig="%s"/>' % (nid("stdef"), n, ppq_attr, clef["sign"], clef["line"], sig))
         else:
             out.append('<staffDef xml:id="%s" n="%d" lines="5"%s><clef xml:id="%s" shape="%s" line="%d"/><keySig xml:id="%s" sig="%s"/><meterSig xml:id="%s" count="%d" unit="%d"/></staffDef>' % (nid("stdef"), n, ppq_attr, nid("clef"), clef["sign"], clef["line"], nid("ks"), sig, nid("ms"), ts0["beats"], ts0["beat_type"]))
-        expected.append({"part": pi, "staff": st, "n": n, "notes": [], "voices": {}, "measures": [gen.quarter_pos(p, m["s"]) for m in p["measures"]], "meter": (ts0["beats"], ts0["beat_type"]), "key": f, "clef": (clef["sign"], clef["line"])})
+        expected.append({"part": pi, "staff": st, "n": n, "notes": [], "voices": {}, "measures": [gen.quarter_pos(p, m["s"]) for m in p["measures"]], "meter": (ts0["beats"], ts0["beat_type"]), "timesigs": [(gen.quarter_pos(p, t["t"]), t["beats"], t["beat_type"]) for t in p["timesigs"]], "key": f, "clef": (clef["sign"], clef["line"])})
     out.append("</staffGrp></scoreDef>")
     out.append('<section xml:id="sec1">')
     xmlid = {}
     ties = []
     for m in range(nmeas):
+        chg = next((t for t in p0["timesigs"] if t["t"] == p0["measures"][m]["s"] and m > 0), None)
+        if chg is not None:
+            # a meter change at a barline: a scoreDef between the measures, meter as attributes or as a child
+            if style["attr_defs"]:
+                out.append('<scoreDef xml:id="%s" meter.count="%d" meter.unit="%d"/>' % (nid("sd"), chg["beats"], chg["beat_type"]))
+            else:
+                out.append('<scoreDef xml:id="%s"><meterSig xml:id="%s" count="%d" unit="%d"/></scoreDef>' % (nid("sd"), nid("ms"), chg["beats"], chg["beat_type"]))
         out.append('<measure xml:id="%s" n="%d">' % (nid("m"), m + 1))
         mties = []
         for k, (pi, p, st) in enumerate(staves):
